@@ -28,7 +28,12 @@ class RichUprpEditor:
         cuwps_already_in_uprp = set(uprp.cuwp_slots)
         # ids placed so far, including the ones added in this call
         allocated_ids = lookup.get_ids()
-        for i, cuwp_to_add in enumerate(unique_cuwps):
+        # place CUWPs that carry an id before allocating ids for the others, so a carried id
+        # is never handed to a new CUWP whatever the iteration order
+        cuwps_in_placement_order = sorted(
+            unique_cuwps, key=lambda cuwp: cuwp.index is None
+        )
+        for i, cuwp_to_add in enumerate(cuwps_in_placement_order):
             if cuwp_to_add.index is not None:
                 self._throw_if_id_is_out_of_range(cuwp_to_add.index)
                 if cuwp_to_add.index not in allocated_ids:
